@@ -30,19 +30,22 @@ SHAPE_SHIFT = dict(module="SpatialId.Props.Tie.ShiftFn", function="GetShiftingSp
 
 PROPS = {
     "C01": dict(
-        modules=["SpatialId.Props.C01", "SpatialId.Props.C02Centre", "SpatialId.Props.Facts.Point"],
+        modules=["SpatialId.Props.C01", "SpatialId.Props.C01X", "SpatialId.Props.C02Centre", "SpatialId.Props.Facts.Point"],
         families=[("newpt", 10000, 80000), ("points", 30000, 250000), ("f64", 20000, 200000)],
         trusted_base=COMMON_TB + F64_TB,
         assumptions=["multiplication/division by 2^k is modelled as exponent adjustment (IEEE 754 exactness)"],
         claim="Theorems (Props/C01.lean) about the bit-exact binary64 model: f = floor of the exact dyadic alt*2^v/2^25 for every "
               "altitude that does not underflow, at every zoom and both signs (f_exact, f_neg: floor not truncation); "
-              "0 <= x < 2^h for every accepted longitude (x_range); y = floor(u*2^h/2) and 0 <= y < 2^h for every oracle value u "
+              "0 <= x < 2^h for every accepted longitude (x_range), and the computed product 2^h((lon+180)/360) is within 2^-15 of the "
+              "exact rational one at every zoom 0..35, so x is the exact floor away from tile boundaries (C01X.x_close, x_exact); y = floor(u*2^h/2) and 0 <= y < 2^h for every oracle value u "
               "in [0,2) (y_formula, y_range); the indices of the formulas name the unique voxel of R^3 containing the point "
               "(names_containing_voxel); list length/order, nil and zoom errors; kernel-evaluated tables for lon = 180, "
               "nextafter(180,0) and tile boundaries at all 36 zooms. The model equals the Go code bit for bit on generated "
               "points (domain edges, tile/cell boundaries +-2 ulp, subnormals). The exact-rational x and f and an independent "
               "libm for y are checked on every case.",
-        note="partial: x is proved in range, not proved equal to the exact floor (binary64 rounding, known finding D16); y depends "
+        note="partial: x is proved in range, within one tile of the exact floor, and EQUAL to it unless the exact product lies within "
+             "2^-15 tile of a tile boundary (Props/C01X.lean: x_close, x_exact, x_within_one, from the rounding-error bounds of "
+             "Lemmas/F64Err.lean) -- the residual is known finding D16; y depends "
              "on libm (oracle, band 2^-44 on u against glibc); f underflow is known finding D11; D10 repaired by a fix: commit.",
         technique="Lean 4 theorems over a bit-exact software-binary64 model + differential correspondence + exact-rational checker",
     ),
@@ -64,7 +67,7 @@ PROPS = {
     ),
 
     "C06": dict(
-        modules=["SpatialId.Props.C06", "SpatialId.Props.Facts.Line"],
+        modules=["SpatialId.Props.C06", "SpatialId.Props.C06Mid", "SpatialId.Props.Facts.Line"],
         families=[("line", 4000, 30000), ("f64", 5000, 50000)],
         trusted_base=COMMON_TB + F64_TB + ["the row of every latitude the recursion looks up is an oracle table produced by the "
                                             "harness with the library's own (hooked) function"],
@@ -306,7 +309,7 @@ PROPS = {
         technique="Lean 4 theorems over executable models + metamorphic differential checks on the Go code",
     ),
     "C17": dict(
-        modules=["SpatialId.Props.C17", "SpatialId.Props.Tie.Shift", "SpatialId.Props.Facts.BitAlt"],
+        modules=["SpatialId.Props.C17", "SpatialId.Props.C17Q", "SpatialId.Props.Tie.Shift", "SpatialId.Props.Facts.BitAlt"],
         families=[("bitalt", 30000, 200000), ("f64", 10000, 100000)],
         trusted_base=COMMON_TB + F64_TB,
         assumptions=["|vIndex| + 1 < 2^53 and vertical zoom within 0..35 (the index to altitude conversion is then exact)"],
